@@ -24,6 +24,14 @@ def parseIns (s : Sexp) : Option (List (Name × Nat)) := do
     | Sexp.list [n, k] => do pure ((← n.asStr?), (← k.asNat?))
     | _ => none
 
+def parseLEvs (s : Sexp) : Option (List LEv) := do
+  let xs ← s.asList?
+  xs.mapM fun x => match x with
+    | Sexp.list [Sexp.atom "alloc", a, v] => do pure (LEv.alloc ⟨← a.asNat?, ← v.asNat?⟩)
+    | Sexp.list [Sexp.atom "drop", a] => do pure (LEv.drop (← a.asNat?))
+    | Sexp.list [Sexp.atom "request", a, v] => do pure (LEv.request ⟨← a.asNat?, ← v.asNat?⟩)
+    | _ => none
+
 def showResp : Option ((Nat × Nat) × Nat) → Sexp
   | some ((c, k), src) => Sexp.list [Sexp.ofNat c, Sexp.ofNat k, Sexp.ofNat src]
   | none => Sexp.atom "none"
@@ -35,6 +43,10 @@ def showResp : Option ((Nat × Nat) × Nat) → Sexp
   C03 memo real|full ((cls key)*)            Memoize state machine on a history of requests; the base returns
                                              its own request (cls key); answer per request: (cls key src) where src
                                              is the index of the request that computed the returned object
+  C03 memolife keep|id ((alloc addr val)|(drop addr)|(request addr val) …)
+                                             cache shared over rounds: responses (the `val` whose result is returned),
+                                             or `ok impossible` if an allocation reuses a live address (with `keep`, the
+                                             arguments inside cache keys are live)
   C03 seqreduce OP TERM (("n" size)*) INS ENV   table of the term `sequential_reduce` builds, or `ok defer`
   C03 collide                                candidate pairs of the generated class table are answered by the
                                              harness from Gen/C03ClassTable (see Props); not a driver request
@@ -62,6 +74,15 @@ def handle (args : List Sexp) : String :=
       let out := if kind == "real" then runMemo (realKey (C := Nat)) base 0 [] reqs
                  else (runMemo (fullKey (C := Nat) (A := Nat)) base 0 [] reqs)
       "ok " ++ toString (Sexp.list (out.map showResp))
+    | none => "err bad-args"
+  | [Sexp.atom "memolife", Sexp.atom kind, evs] =>
+    match parseLEvs evs with
+    | some evs =>
+      match lrun (kind == "keep") id ⟨[], []⟩ evs with
+      | some rs => "ok " ++ toString (Sexp.list (rs.map fun r => match r with
+          | some v => Sexp.ofNat v
+          | none => Sexp.atom "-"))
+      | none => "ok impossible"
     | none => "err bad-args"
   | [Sexp.atom "seqreduce", Sexp.atom op, t, vars, ins, env] =>
     match parseTerm t, parseIns vars, parseIns ins, parseEnv env with
